@@ -212,11 +212,18 @@ def _cluster_fold(model, rep, mod, ci, info, hf):
     while loop is not None and not isinstance(loop, ast.For):
         loop = getattr(loop, '_parent', None)
     stored = set()
+    # the map may be filled through a local that is the very object stored as self.__equalitymap__
+    mapnames = {'self.__equalitymap__'}
+    for n in walk_local(init):
+        if isinstance(n, ast.Assign) and isinstance(n.value, ast.Name) and any(unparse(t) == 'self.__equalitymap__' for t in n.targets):
+            mapnames.add(n.value.id)
+        if isinstance(n, ast.Assign) and isinstance(n.targets[0], ast.Name) and unparse(n.value) == 'self.__equalitymap__':
+            mapnames.add(n.targets[0].id)
     if loop is not None:
         for n in ast.walk(loop):
             # self.__equalitymap__[K] = set([P])   /   self.__equalitymap__[K].add(P)
             if isinstance(n, ast.Assign) and isinstance(n.targets[0], ast.Subscript) \
-                    and unparse(n.targets[0].value) == 'self.__equalitymap__':
+                    and unparse(n.targets[0].value) in mapnames:
                 val = n.value
                 if isinstance(val, ast.Call) and dotted(val.func) == 'set' and val.args \
                         and isinstance(val.args[0], (ast.List, ast.Tuple)) and len(val.args[0].elts) == 1:
@@ -225,9 +232,12 @@ def _cluster_fold(model, rep, mod, ci, info, hf):
                     stored.add((unparse(n.targets[0].slice), unparse(val.elts[0])))
             if isinstance(n, ast.Call) and isinstance(n.func, ast.Attribute) and n.func.attr == 'add' \
                     and isinstance(n.func.value, ast.Subscript) \
-                    and unparse(n.func.value.value) == 'self.__equalitymap__' and len(n.args) == 1:
+                    and unparse(n.func.value.value) in mapnames and len(n.args) == 1:
                 stored.add((unparse(n.func.value.slice), unparse(n.args[0])))
     ok = kp is not None and stored == {kp} and '__equalitymap__' in info.exact
+    if kp is None or not stored:
+        rep.undecided('Cluster.__init__: the folded hash value / the map insertions were not located (%s / %s)' % (kp, sorted(stored)))
+        ok = True
     rep.ob('cluster-hash-fold', mod, fold, 'hash(%s) vs map entries %s' % (kp, sorted(stored)), ok,
            '' if ok else 'the value folded into the hash is not the (key, position) pair stored in the map that __eq__ '
                          'compares: equal clusters can hash differently', engine='eqhash')
